@@ -41,7 +41,7 @@ CHECKS = {
     ),
     "C08": dict(
         modules=["AggkitModel.Properties.C08"],
-        scenarios=[dict(name="tree")],
+        scenarios=[dict(name="tree"), dict(name="l1infostore")],
         generated=[],
         leanchecker=True,
         level_text="Proved in Lean 4 for every tree height and every hash algebra, under collision-freedom (H.Inj): C08_appendonly — after ANY well-formed history "
@@ -109,7 +109,7 @@ CHECKS = {
     ),
     "C04": dict(
         modules=["AggkitModel.Properties.C04"],
-        scenarios=[dict(name="bridgestore")],
+        scenarios=[dict(name="bridgestore"), dict(name="l1infostore")],
         generated=["Schema"],
         leanchecker=True,
         level_text="Proved in Lean 4: C04_tree_roots — any two well-formed histories (blocks, rollbacks, restarts, reorgs incl. nested/repeated ones and continuations on the new fork) with the same surviving leaves serve the same exit root "
@@ -125,7 +125,7 @@ CHECKS = {
     ),
     "C07": dict(
         modules=["AggkitModel.Properties.C07"],
-        scenarios=[dict(name="bridgestore"), dict(name="tree")],
+        scenarios=[dict(name="bridgestore"), dict(name="tree"), dict(name="l1infostore")],
         generated=[],
         leanchecker=True,
         level_text="Proved in Lean 4: C07_atomic — for every block and EVERY index of the failing write statement (and for duplicate keys, deposit gaps, refusal while halted): a ProcessBlock that does not return success leaves blocks, event rows, exit-tree roots and nodes exactly as before; "
@@ -141,7 +141,7 @@ CHECKS = {
     ),
     "C14": dict(
         modules=["AggkitModel.Properties.C14"],
-        scenarios=[dict(name="bridgestore")],
+        scenarios=[dict(name="bridgestore"), dict(name="l1infostore")],
         generated=["QueryTable"],
         leanchecker=True,
         level_text="Proved in Lean 4: C14_all_queries_guarded — `decide` over the table of ALL exported methods of *BridgeSync and *L1InfoTreeSync, REGENERATED from the Go source on every run (entry points added later appear in the table automatically): every data query starts with the halted guard returning ErrInconsistentState; "
@@ -151,5 +151,23 @@ CHECKS = {
         rule="halting through deposit-count gaps in 8% of steps, then reflection over every exported facade method, queries, a refused block, a reorg that removes nothing, then reorgs/restarts; distinct non-trivial as for C04",
         assumptions=[],
         trusted_base=["goextract QueryTable extractor", "hand model Model/BridgeStore.lean"],
+    ),
+    "C11": dict(
+        modules=["AggkitModel.Properties.C11"],
+        scenarios=[dict(name="l1infostore")],
+        generated=[],
+        leanchecker=True,
+        level_text="Proved in Lean 4 (any height, any hash algebra, H.Inj where needed): C11_indices_consecutive — for every mix of events in a block the stored info leaves get consecutive indices in event order and nothing else touches the leaf table; "
+                   "C11_info_root_is_contract_root — for every well-formed history the root recorded for index i is the deposit-contract algorithm's root after i+1 leaves (the GER contract uses the same incremental tree); "
+                   "C11_v2_check_iff — a root announcement halts the syncer iff (root, leaf count) differs from the synced tree, and changes nothing otherwise; C11_verify_records_manager_root — an effective batch verification records the root of the tree of last exit roots with "
+                   "position rollupID-1 updated (what the rollup manager computes), keeps the store closed for the new version; C11_zero_exit_root_skipped. Lookup by index / GER and the leaf hash layout are decided by the correspondence + contract-reference monitors. "
+                   "Tie: the real l1infotreesync processor + L1InfoTreeSync facade vs the compiled model on the same blocks (info updates, V2 announcements right and wrong, batch verifications incl. zero/unchanged/recurring exit roots and rollup ids up to 2^32-1, init events), reorgs, restarts, halts; "
+                   "monitors: GER-contract reference (Go port of the deposit tree over keccak(ger,parentHash,ts)), sparse rollup-exit-tree reference, every (historical root, covered index) proof, twin comparison.",
+        level_note="Trusted: Lean kernel; H.Inj; model/code correspondence (generator-bounded); the two L1 contracts are modelled by hand (deposit-tree algorithm; sparse tree of last exit roots) and cross-checked against independent Go ports, not against bytecode. "
+                   "Hypotheses: distinct GERs (UNIQUE column); rollup id >= 1; no rollup goes from non-zero back to zero for manager-root equality; no recurrence of a previous rollup-exit-tree state (root is the table's primary key).",
+        rule="seeded worlds of 14-25 steps: blocks with 0-5 events, 25% with 3-5 info updates, V2 announcements computed from the reference (35%) or deliberately wrong (12%), exit roots from a pool incl. zero and repeats; reorgs in [first-1, tip+2], restarts; "
+             "distinct non-trivial = distinct historical info roots checked + twin comparisons",
+        assumptions=["H.Inj", "distinct GERs", "rollupID >= 1", "no zero-after-nonzero exit root for manager equality"],
+        trusted_base=["hand model Model/L1InfoStore.lean", "model of package tree"],
     ),
 }
